@@ -359,10 +359,23 @@ func (c *xsyncMap) DeleteExpired() {
 	c.items.Range(func(k string, v interface{}) bool {
 		i := v.(item)
 		if i.expiredWithNow(now) {
-			c.items.Delete(k)
-			if ec != nil {
-				evictedItems = append(evictedItems, kv{k, i.v})
-			}
+			// The entry was expired when Range saw it, but it may have been replaced
+			// since: re-check and delete under the bucket lock, and report the value
+			// that is actually removed.
+			c.items.Compute(k, func(value interface{}, loaded bool) (interface{}, bool) {
+				if loaded {
+					cur := value.(item)
+					if !cur.expiredWithNow(now) {
+						// k has a new value
+						return value, false
+					}
+					if ec != nil {
+						evictedItems = append(evictedItems, kv{k, cur.v})
+					}
+				}
+				// delete
+				return nil, true
+			})
 		}
 		return true
 	})
